@@ -642,7 +642,7 @@ def adversarial_docs(ck, base_docs):
         keep, per = [], {}
         for d in docs:
             k = d["fmt"]
-            if per.get(k, 0) < 90 or d["pos"] in (["symop"], ["auxiliary-name"], ["species"], ["junk"], ["valid-after-errors"]) or d["pos"][:1] == ["tabulated-setting"]:
+            if per.get(k, 0) < 90 or d["pos"] in (["symop"], ["auxiliary-name"], ["species"], ["junk"], ["valid-after-errors"]) or d["pos"][:1] in (["tabulated-setting"], ["custom-operators"]) or str(d.get("mode", "")).startswith("break-name"):
                 keep.append(d)
                 per[k] = per.get(k, 0) + 1
         docs = keep
